@@ -15,7 +15,8 @@ Open Scope Z_scope.
 
 (* transports: 0 udp Conn over the in-memory session; 1 tcp Conn + real tcp/client.Session over a scripted
    net.Conn; 2 udp Conn + real dtls/server.Session over a scripted net.Conn; 3 udp Conn + real udp/server.Session
-   over a loopback socket (udp.Dial).
+   over a loopback socket (udp.Dial); 4 (close runs only) a server-side connection of the udp server: its
+   udp/server.Session has no Run, shutdown is called by the server's close function from concurrent ticks.
    operations: 0 request (Client.Do / Get), 1 observe registration, 2 observation Cancel, 3 Ping,
    4 one-way WriteMessage of a confirmable message, 5 one-way WriteMessage of a non-confirmable message.
    interruption points: 0 before the call, 1 request on the wire and unanswered, 2 after an empty ACK without a
@@ -137,9 +138,16 @@ Fixpoint zlist_eqb (a b : list Z) : bool :=
   | _, _ => false
   end.
 
+(* the reader loops of dtls/server.Session and udp/server.Session end on a datagram that does not decode
+   (Run returns the error of Conn.Process, which closes the connection): on those transports garbage from the
+   peer IS a close by the peer, whatever else the scenario fires afterwards *)
+Definition eff_trig (tr pt peer trig : Z) : Z :=
+  if ((tr =? 2) || (tr =? 3)) && (peer =? 1) && negb (pt =? 0) then 3 else trig.
+
 Definition agrees (c : case) : bool :=
   match c with
-  | Op tr op pt _ trig o_ret o_err =>
+  | Op tr op pt peer trig0 o_ret o_err =>
+      let trig := eff_trig tr pt peer trig0 in
       Bool.eqb o_ret (predicted_ret tr op pt trig) &&
       (negb o_ret || negb (needs_reply tr op pt trig) && negb (trig =? 4) || err_agrees trig o_err)
   | Disc started _ trig o_ret o_err =>
